@@ -34,12 +34,16 @@ fn encode_generate_code_request(parsed_files: &[slicec::slice_file::SliceFile]) 
     let mut source_files = Vec::new();
     let mut reference_files = Vec::new();
     for parsed_file in parsed_files {
-        // Convert the Slice file from AST representation to Slice representation.
-        let converted_file = definition_types::SliceFile::from(parsed_file);
-        // Determine whether this is a source or reference file and place it accordingly.
-        match parsed_file.is_source {
-            true => source_files.push(converted_file),
-            false => reference_files.push(converted_file),
+        // Files without a module declaration are skipped. Such files are empty (the parser rejects definitions that
+        // aren't in a module), so there's nothing to generate for them, and they can't be represented in the request.
+        if parsed_file.module.is_some() {
+            // Convert the Slice file from AST representation to Slice representation.
+            let converted_file = definition_types::SliceFile::from(parsed_file);
+            // Determine whether this is a source or reference file and place it accordingly.
+            match parsed_file.is_source {
+                true => source_files.push(converted_file),
+                false => reference_files.push(converted_file),
+            }
         }
     }
 
